@@ -136,20 +136,30 @@ class Gen:
         self.big = tier == 'thorough'
         self.dgs = []           # (class, bytes)
         self.seen = set()
+        self.parent = {}
         self.stats = {}
 
-    def add(self, cls, d):
+    def add(self, cls, d, parent=None):
+        """parent: a longer datagram this one was derived from (cut / field changed); in the round that
+        leaves the receive buffer alone the parent is received immediately before it, so that the buffer
+        holds the parent's bytes beyond the end of this datagram"""
         d = bytes(d)[:8000]
+        if parent is not None:
+            parent = bytes(parent)[:8000]
+            if parent != d:
+                self.add(cls + '-parent' if parent not in self.seen else cls, parent)
         if d in self.seen:
             return
         self.seen.add(d)
+        if parent is not None and parent != d:
+            self.parent[len(self.dgs)] = parent
         self.dgs.append((cls, d))
         self.stats[cls] = self.stats.get(cls, 0) + 1
 
     def every_truncation(self, cls, d, step=1):
-        for l in range(0, len(d) + 1, step):
-            self.add(cls, d[:l])
         self.add(cls, d)
+        for l in range(0, len(d) + 1, step):
+            self.add(cls, d[:l], parent=d)
 
     def run(self):
         r = self.rng
@@ -228,11 +238,11 @@ class Gen:
                 remaining = len(d) - (off + 2)
                 for v in (remaining - 1, remaining, remaining + 1, remaining + 2, 0, 1, 2, 0xffff, 4096, 4097, true + 256, max(0, true - 1)):
                     if 0 <= v <= 0xffff:
-                        self.add('rdlength', put16(d, off, v))
+                        self.add('rdlength', put16(d, off, v), parent=d)
                 # the same with the datagram cut right after / inside the record header
                 for cut in (off, off + 1, off + 2, off + 3):
-                    self.add('rdlength-cut', d[:cut])
-                self.add('rdlength', put16(d[:off + 2 + 1], off, 3))
+                    self.add('rdlength-cut', d[:cut], parent=d)
+                self.add('rdlength', put16(d[:off + 2 + 1], off, 3), parent=d)
         # 6. TXT strings overrunning the record / the datagram / 4096
         for _ in range(60 if not big else 400):
             qn = r.choice([b'Pab.t.example.com', b'0.t.example.com'])
@@ -256,7 +266,7 @@ class Gen:
             d = answer(r.randrange(65536), T_TXT, qn, [rr(PTR_Q, T_TXT, bytes(rd))])
             self.add('txt-overrun', d)
             self.add('txt-overrun', put16(d, 12 + len(wname(qn)) + 4 + 10, len(rd) + r.choice([1, 2, 255])))
-            self.add('txt-overrun', d[:len(d) - r.choice([1, 2, 5])])
+            self.add('txt-overrun', d[:len(d) - r.choice([1, 2, 5])], parent=d)
         # 7. MX / SRV: preferences 10..2500 and beyond, duplicates, gaps, 0..260 records, odd RDLENGTHs
         for qt in (T_MX, T_SRV):
             counts = [0, 1, 2, 3, 9, 10, 11, 249, 250, 251, 260] if big else [0, 1, 2, 3, 10, 11, 250, 251, 260]
@@ -286,13 +296,25 @@ class Gen:
                     if cnt and cnt < 200:
                         self.add('mx-srv', put16(d, 6, cnt + r.choice([1, 2, 100])))     # ancount beyond the records present
                         cutpos = len(d) - r.choice([1, 2, 3, 5, 9])
-                        self.add('mx-srv', d[:cutpos])
+                        self.add('mx-srv', d[:cutpos], parent=d)
             # SRV record cut inside weight/port, MX answered with SRV records and vice versa
             base = hdr(5, 0x8400, 1, 1) + wname(b'Px.t.example.com') + b16(qt) + b16(1)
             for other in (T_MX, T_SRV, T_A, T_NULL):
                 full = base + rr(PTR_Q, other, b16(10) + b16(1) + b16(2) + wname(b'hab.xy'))
                 for cut in range(len(base), len(full) + 1):
-                    self.add('mx-srv-cut', full[:cut])
+                    self.add('mx-srv-cut', full[:cut], parent=full)
+            # a last record whose RDATA is shorter than preference (+ weight, port) + name: RDLENGTH 0..8 with
+            # exactly that many bytes present, or none; the parent has a complete record (same or other
+            # preference) at that place
+            pad = b16(10) + b16(5060) if qt == T_SRV else b''
+            rec1 = rr(PTR_Q, qt, b16(10) + pad + wname(b'hfirst.xy'))
+            for pref2 in (10, 20, 30):
+                rd2 = b16(pref2) + pad + wname(b'hsecond.xy')
+                par = answer(0x5150, qt, b'Pq.t.example.com', [rec1, rr(PTR_Q, qt, rd2)])
+                for rdl in range(0, 10):
+                    self.add('mx-srv-short-rdata', answer(0x5150, qt, b'Pq.t.example.com', [rec1, rr(PTR_Q, qt, rd2[:rdl], rdl)]), parent=par)
+                    self.add('mx-srv-short-rdata', answer(0x5150, qt, b'Pq.t.example.com', [rec1, rr(PTR_Q, qt, b'', rdl)]), parent=par)
+                    self.add('mx-srv-short-rdata', answer(0x5150, qt, b'Pq.t.example.com', [rec1, rr(PTR_Q, qt, rd2[:rdl], rdl)], an=3), parent=par)
         # 8. counts 0, 1, 0x7fff, 0x8000, 0xffff
         for qr in (0, 1):
             for qt in (T_NULL, T_MX, T_TXT, T_CNAME):
@@ -334,6 +356,7 @@ class Gen:
                     [b'paaaq.t.example.com', b'1abcdefgh.t.example.com', b'www.t.example.com', b'v' + b'a' * 40 + b'.x.org']), r.randrange(2) == 0))
             else:
                 base = bytearray(valid_answer(r, r.choice(QTYPES), r.choice([2, 5, 30, 100, 250]))[0])
+            orig = bytes(base)
             for _k in range(r.choice([1, 1, 2, 3, 6])):
                 m = r.randrange(5)
                 pos = r.randrange(12, len(base))
@@ -351,47 +374,83 @@ class Gen:
                         break
                 else:
                     base[pos:pos] = bytes([r.choice([0xc0, 63, 200])])
-            self.add('mutated', base)
+            self.add('mutated', base, parent=orig if len(orig) > len(base) else None)
         return self.dgs
 
 
 # ---- case lines -----------------------------------------------------------------------------------
-def case_lines(dgs, rng, tier):
+def case_lines(dgs, parents, rng, tier):
     """rounds: every datagram once per residue, in a different order per round, so that the runs
     of one datagram have different predecessors (matters for residue -1 and for anything that
-    survives on the stack between calls).  Returns (cases, key per case)."""
+    survives on the stack between calls).  In the round with residue -1 (buffer left alone) a
+    datagram derived from a longer one is received right after that parent, by the same decoder: the
+    receive buffer then holds the rest of the parent -- 'long datagram, then its short/truncated copy'.
+    Returns (cases, key per case)."""
     cases = []
     keys = []
+    index = {d: i for i, (_, d) in enumerate(dgs)}
     order = list(range(len(dgs)))
+
+    def emit(kind, buflen, res, i):
+        if kind == 'Q':
+            cases.append('Q %d %s' % (res, hexs(dgs[i][1])))
+        else:
+            cases.append('A %d %d %s' % (buflen, res, hexs(dgs[i][1])))
+        keys.append((kind, buflen, i))
     for rd, res in enumerate(RESIDUES):
         if rd:
             rng.shuffle(order)
         for i in order:
-            h = hexs(dgs[i][1])
-            cases.append('Q %d %s' % (res, h))
-            keys.append(('Q', 0, i))
-            cases.append('A 65536 %d %s' % (res, h))
-            keys.append(('A', 65536, i))
+            runs = [('Q', 0), ('A', 65536)]
             if res in (1, 4, -1):
-                cases.append('A 4096 %d %s' % (res, h))
-                keys.append(('A', 4096, i))
+                runs.append(('A', 4096))
             if res in (0, 3):
-                cases.append('A 300 %d %s' % (res, h))
-                keys.append(('A', 300, i))
+                runs.append(('A', 300))
+            pi = index.get(parents.get(i)) if res == -1 else None
+            for kind, buflen in runs:
+                if pi is not None:
+                    emit(kind, buflen, res, pi)
+                emit(kind, buflen, res, i)
     return cases, keys
 
 
-def shard_bounds(n, shards=16):
+def shard_bounds(cases, shards=16):
     """the split vlib.parallel_run_cases makes (contiguous blocks), to know each case's predecessors"""
-    shards = max(1, min(shards, n // 200 + 1))
-    size = (n + shards - 1) // shards
-    return size
+    n = len(cases)
+    avg = sum(len(c) for c in cases[:50]) / max(1, min(n, 50))
+    per = 200 if avg < 2000 else 4
+    shards = max(1, min(shards, n // per + 1))
+    return (n + shards - 1) // shards
+
+
+HIST_CHUNK = 4
+
+
+def run_chunked(exe, cases, work, tag):
+    """histories in fixed chunks of HIST_CHUNK lines, one process per chunk, run concurrently; the split
+    does not depend on line lengths, so that runs under different residues see the same sequence of
+    histories per process.  Returns (rc, lines, err)."""
+    from concurrent.futures import ThreadPoolExecutor
+    chunks = [cases[i:i + HIST_CHUNK] for i in range(0, len(cases), HIST_CHUNK)]
+
+    def one(ci):
+        cp = os.path.join(work, '%s.%d.cases' % (tag, ci))
+        with open(cp, 'w') as f:
+            f.write('\n'.join(chunks[ci]) + '\n')
+        rc, out, err = vlib.run_cases(exe, cp)
+        if len(out) < len(chunks[ci]):
+            out = out + ['<NO-OUTPUT>'] * (len(chunks[ci]) - len(out))
+        return rc, out[:len(chunks[ci])], err
+    with ThreadPoolExecutor(max_workers=16) as ex:
+        res = list(ex.map(one, range(len(chunks))))
+    rc = next((r for r, _, _ in res if r != 0), 0)
+    return rc, [l for _, o, _ in res for l in o], ''.join(e for r, _, e in res if r != 0)[-3000:]
 
 
 def find_repro(exe, cases, ia, ib, work):
     """smallest sequence of case lines, run in ONE process, in which case ia and case ib (same datagram,
     different residue / predecessor) print different results"""
-    size = shard_bounds(len(cases))
+    size = shard_bounds(cases)
     for back in (0, 1, 3, 10, None):
         seq = []
         marks = []
@@ -425,7 +484,7 @@ def insert_c12_events(hist, rng, stats):
         dg = bytes.fromhex(t[5])
         if len(dg) < 20:
             continue
-        other = '4:c6336455:%d' % rng.randrange(1024, 65000)
+        other = t[3] if rng.randrange(2) else '4:c6336455:%d' % rng.randrange(1024, 65000)
         k = rng.randrange(6)
         if k == 0:
             short = dg[:rng.randrange(12, len(dg))]
@@ -458,10 +517,83 @@ def insert_c12_client_events(hist, rng, stats):
         dg = bytes.fromhex(t[2])
         if len(dg) < 5:
             continue
-        short = dg[:rng.choice([1, 3, 4, 5, 11, 12, 13, 16, 20, max(1, len(dg) - 1), max(1, len(dg) - 3)])]
-        out.append('D %s %s' % (t[1], hexs(short)))
+        short = dg[:rng.choice([1, 2, 3, 3, 4, 5, 11, 12, 13, 16, 20, max(1, len(dg) - 1), max(1, len(dg) - 3)])]
+        out.append('D %d %s' % (int(t[1]) + rng.choice([0, 1]), hexs(short)))
         stats['c12_short_after_long'] = stats.get('c12_short_after_long', 0) + 1
     return ' ; '.join(out)
+
+
+def crafted_server_histories(seed, n):
+    """version, login, raw login; then raw ping / raw data / DNS ping each followed -- from the SAME
+    address -- by cut copies of itself (raw frames cut to 0..5 bytes: a 3-byte frame is the raw magic
+    alone, command/user byte and payload only in the residue)"""
+    rng = vlib.rng_for(seed, 'c12-srv-crafted')
+    out = []
+    for _ in range(n):
+        g = srvlib.HistGen(rng, adversarial=0)
+        s = srvlib.Session(g, (4, bytes([192, 0, 2, 10]), 4000))
+        g.sessions = [s]
+        g.version(s)
+        g.tick()
+        g.login(s)
+        g.tick()
+        uid = s.uid if s.uid is not None else 0
+        rh = bytes([0x10, 0xd1, 0x9e])
+        if rng.randrange(4):
+            g.emit_dgram(s.addr, rh + bytes([0x10 | uid]) + srvlib.login_stub(g.password, (s.seed + 1) & 0xffffffff))
+            g.tick()
+        for _k in range(rng.choice([3, 5, 8])):
+            k = rng.randrange(4)
+            if k == 0:
+                full = rh + bytes([0x30 | uid])
+            elif k == 1:
+                ip = bytearray(rng.randrange(256) for _ in range(rng.choice([24, 40, 40, 1, 10, 20, 23])))
+                dst = rng.choice(g.tun_ips[:3] + [0x08080808])
+                if len(ip) >= 24:
+                    ip[20:24] = bytes([(dst >> 24) & 255, (dst >> 16) & 255, (dst >> 8) & 255, dst & 255])
+                full = rh + bytes([0x20 | uid]) + bytes([0x5A]) + bytes(ip)
+            elif k == 2:
+                full = rh + bytes([0x10 | uid]) + srvlib.login_stub(g.password, (s.seed + 1) & 0xffffffff)
+            else:
+                g.ping(s)
+                full = bytes.fromhex(g.events[-1].split(' ')[5])
+                g.events.pop()
+            g.emit_dgram(s.addr, full)
+            g.tick()
+            cuts = [0, 1, 2, 3, 4, 5, 12, 13, 19, 20, len(full) - 1, len(full) - 2] if k != 3 else \
+                [12, 13, 14, 17, 20, len(full) - 1, len(full) - 4, len(full) - 5, len(full) - 12, len(full) - 15]
+            for c in rng.sample(cuts, 4):
+                if 0 <= c < len(full):
+                    g.emit_dgram(s.addr, full[:c])
+                    g.tick()
+        out.append('H ' + g.cfg() + ' ; ' + ' ; '.join(g.events))
+    return out
+
+
+def crafted_client_histories(seed, n):
+    """raw-mode client: raw data / ping frames for this user, each followed a second later by copies cut
+    to 0..5 bytes"""
+    rng = vlib.rng_for(seed, 'c12-cli-crafted')
+    out = []
+    for _ in range(n):
+        g = clilib.CliGen(rng)
+        g.dns = 0
+        rh = bytes([0x10, 0xd1, 0x9e])
+        for _k in range(rng.choice([3, 6])):
+            if rng.randrange(2):
+                full = rh + bytes([0x20 | g.uid]) + bytes([0x5A]) + bytes(rng.randrange(256) for _ in range(rng.choice([1, 20, 60])))
+            else:
+                full = rh + bytes([0x30 | g.uid])
+            g.now += rng.choice([0, 1, 2])
+            g.events.append('D %d %s' % (g.now, full.hex()))
+            for c in rng.sample([0, 1, 2, 3, 4, 5, len(full) - 1], 3):
+                if 0 <= c < len(full):
+                    g.now += rng.choice([1, 2, 5])
+                    g.events.append('D %d %s' % (g.now, hexs(full[:c])))
+            if rng.randrange(3) == 0:
+                g.tun()
+        out.append(g.head() + ' ; ' + ' ; '.join(g.events))
+    return out
 
 
 def run_histories(rep, ctx, which, exe, model, hists, tag):
@@ -471,10 +603,10 @@ def run_histories(rep, ctx, which, exe, model, hists, tag):
     # send_chunk), which must evolve identically in the runs that are compared
     impls = []
     nev = sum(h.count(' ; ') for h in hists)
-    size = shard_bounds(len(hists))
+    size = HIST_CHUNK
     for res in HIST_RESIDUES:
         cases = ['R %d %s' % (res, h) for h in hists]
-        rc, out, err = vlib.parallel_run_cases(exe, cases, ctx.work, '%s-impl%d' % (tag, res))
+        rc, out, err = run_chunked(exe, cases, ctx.work, '%s-impl%d' % (tag, res))
         if rc != 0:
             idx = next((i for i, l in enumerate(out) if l == '<NO-OUTPUT>'), None)
             rep.add_violation('%s-history:crash' % which, 'real %s dispatcher crashed / exited with %d: %s' % (which, rc, err[-300:]),
@@ -504,15 +636,23 @@ def run_histories(rep, ctx, which, exe, model, hists, tag):
                                        expected='identical outputs for both residues'))
                 return nev
     if model:
-        rc, mod, err = vlib.parallel_run_cases(model, hists, ctx.work, tag + '-model')
+        rc, mod, err = run_chunked(model, hists, ctx.work, tag + '-model')
         for hi, h in enumerate(hists):
             if hi < len(mod) and mod[hi] != impl[hi]:
                 a = impl[hi].split(' ; ')
                 b = mod[hi].split(' ; ')
                 e = next((x for x in range(min(len(a), len(b))) if a[x] != b[x]), min(len(a), len(b)))
-                ctx.broken.append(('correspondence:%s-history' % which,
-                                   'model and real %s disagree at event %d of history %r...: impl=%r model=%r' % (
-                                       which, e, h[:160], (a[e] if e < len(a) else '')[:200], (b[e] if e < len(b) else '')[:200])))
+                evs = h.split(' ; ')
+                txt = 'model and real %s disagree at event %d (%s) of history %r...: impl=%r model=%r' % (
+                    which, e, evs[e + 1][:160] if e + 1 < len(evs) else '?', h[:100],
+                    (a[e] if e < len(a) else '')[:200], (b[e] if e < len(b) else '')[:200])
+                ctx.broken.append(('correspondence:%s-history' % which, txt))
+                if not rep.violations:
+                    # a concrete history on which the real dispatcher leaves the validated model
+                    rep.add_violation('correspondence:%s-history' % which, txt,
+                                      dict(kind='input', driver=tag, event=e, history_batches=[
+                                          ['R %d %s' % (HIST_RESIDUES[0], x[:400000]) for x in hists[(hi // size) * size:hi + 1]]],
+                                           expected='implementation output equals the model output'), concrete=True)
                 break
     return nev
 
@@ -533,7 +673,7 @@ def check(rep):
                     ncorpus += 1
     dgs = g.run()
     rng = vlib.rng_for(rep.seed, 'c12-order')
-    cases, keys = case_lines(dgs, rng, rep.tier)
+    cases, keys = case_lines(dgs, g.parent, rng, rep.tier)
     rep.cov['rule'] = ('corpus first; generated datagrams by class (see input_distribution): valid queries/answers of all 7 types '
                        'truncated at every length; labels ending at len-2..len+5 incl. length bytes 0x40..0xBF; compression pointers to '
                        'len-2..len+2, 0..12, forward/self, chains and loops of depth 1..12, cut pointers; RDLENGTH = remaining-1/remaining/'
@@ -614,7 +754,7 @@ def check(rep):
             rep.add_violation('sanitizer', 'ASan/UBSan report: ' + err[-400:],
                               dict(kind='input', driver='wire.san', cases=[sub[idx][:100000]] if idx is not None else None, observed=err[-2000:]))
     # end-to-end histories
-    nh = (24, 40) if rep.tier == 'quick' else (300, 60)
+    nh = (24, 40, 12) if rep.tier == 'quick' else (300, 60, 100)
     hstats = {}
     if 'c12srv' in ctx.exe:
         mok, msrv, lg = vlib.build_model_driver('SRV')
@@ -622,7 +762,8 @@ def check(rep):
             ctx.broken.append(('extraction:SRV', 'server model driver build failed: ' + lg[-300:]))
         hs, st = srvlib.gen_histories(rep.seed, nh[0], nh[1], tag='c12-srv')
         hr = vlib.rng_for(rep.seed, 'c12-srv-ins')
-        hs = [insert_c12_events(h, hr, st) for h in hs]
+        hs = [insert_c12_events(h, hr, st) for h in hs] + crafted_server_histories(rep.seed, nh[2])
+        st['c12_crafted_histories'] = nh[2]
         hstats['server'] = st
         nev = run_histories(rep, ctx, 'server', ctx.exe['c12srv'], msrv if mok else None, hs, 'c12srv')
         rep.cov['server_history_events'] = nev
@@ -633,7 +774,8 @@ def check(rep):
             ctx.broken.append(('extraction:CLI', 'client model driver build failed: ' + lg[-300:]))
         hs, st = clilib.gen_histories(rep.seed, nh[0], nh[1], tag='c12-cli')
         hr = vlib.rng_for(rep.seed, 'c12-cli-ins')
-        hs = [insert_c12_client_events(h, hr, st) for h in hs]
+        hs = [insert_c12_client_events(h, hr, st) for h in hs] + crafted_client_histories(rep.seed, nh[2])
+        st['c12_crafted_histories'] = nh[2]
         hstats['client'] = st
         nev = run_histories(rep, ctx, 'client', ctx.exe['c12cli'], mcli if mok else None, hs, 'c12cli')
         rep.cov['client_history_events'] = nev
@@ -660,6 +802,12 @@ def replay(rp):
             rc, impl, err = vlib.run_cases(ctx.exe[drv], cp)
             outs.append(impl[-1] if impl and rc == 0 else 'CRASH ' + err[-300:])
             print('batch %d (%s...): %d histories' % (bi, batch[-1][:12], len(batch)))
+        if len(outs) == 1:
+            # one batch: compare with the model (which takes the histories without the residue prefix)
+            cp = os.path.join(ctx.work, 'replay-model.cases')
+            open(cp, 'w').write('\n'.join(c[c.index(' ', 2) + 1:] for c in rp['history_batches'][0]) + '\n')
+            rc, mod, err = vlib.run_cases(ctx.model, cp) if ctx.model else (1, [], 'no model')
+            outs.append(mod[-1] if mod else 'NO-MODEL-OUTPUT ' + err[-300:])
         a = outs[0].split(' ; ')
         b = outs[1].split(' ; ')
         e = next((x for x in range(min(len(a), len(b))) if a[x] != b[x]), None)
@@ -667,7 +815,7 @@ def replay(rp):
             print('oracle: ok (identical outputs)')
             return 0
         print('event %s: %r vs %r' % (e, (a[e] if e is not None else '')[:300], (b[e] if e is not None else '')[:300]))
-        print('oracle: outputs depend on the residue')
+        print('oracle: outputs differ (%s)' % ('implementation vs model' if len(rp['history_batches']) == 1 else 'they depend on the residue'))
         return 1
     cs = rp.get('cases')
     if not cs:
